@@ -494,6 +494,67 @@ fn cmap_subtable_outside_the_table() {
     assert_has(&font, "cmap-bounds");
 }
 
+/// A cmap with the font's own format 4 subtable plus hand-made format 12 and 14 subtables
+/// (the repo fixtures have neither). `gid12` / `gid14`: glyph ids stored in them.
+fn cmap_with_formats_12_and_14(font: &[u8], gid12: u32, gid14: u16) -> Vec<u8> {
+    let (_, cmap, _) = find(font, "cmap");
+    let format4_at = cmap + be32(font, cmap + 8);
+    let format4 = &font[format4_at..format4_at + be16(font, format4_at + 2)];
+    let mut format12 = vec![];
+    format12.extend(12u16.to_be_bytes());
+    format12.extend(0u16.to_be_bytes());
+    format12.extend(28u32.to_be_bytes()); // length: 16 + one group
+    format12.extend(0u32.to_be_bytes());
+    format12.extend(1u32.to_be_bytes());
+    for v in [0x1F600u32, 0x1F601, gid12] {
+        format12.extend(v.to_be_bytes());
+    }
+    let mut format14 = vec![];
+    format14.extend(14u16.to_be_bytes());
+    format14.extend(38u32.to_be_bytes()); // 10 + 11 + (4 + 4) + (4 + 5)
+    format14.extend(1u32.to_be_bytes());
+    format14.extend(&0xFE00u32.to_be_bytes()[1..]);
+    format14.extend(21u32.to_be_bytes()); // default UVS
+    format14.extend(29u32.to_be_bytes()); // non-default UVS
+    format14.extend(1u32.to_be_bytes());
+    format14.extend(&0x20u32.to_be_bytes()[1..]);
+    format14.push(0);
+    format14.extend(1u32.to_be_bytes());
+    format14.extend(&0x2Du32.to_be_bytes()[1..]);
+    format14.extend(gid14.to_be_bytes());
+    assert_eq!(format14.len(), 38);
+
+    let mut table = vec![0, 0, 0, 3];
+    let first = 4 + 3 * 8;
+    let offsets = [first, first + format4.len(), first + format4.len() + format14.len()];
+    for ((platform, encoding), offset) in [(0u16, 3u16), (0, 5), (3, 10)].into_iter().zip(offsets) {
+        table.extend(platform.to_be_bytes());
+        table.extend(encoding.to_be_bytes());
+        table.extend((offset as u32).to_be_bytes());
+    }
+    table.extend(format4);
+    table.extend(&format14);
+    table.extend(&format12);
+    table
+}
+
+#[test]
+fn cmap_formats_12_and_14() {
+    let font = wght_var();
+    let good = with_table(&font, "cmap", Some(cmap_with_formats_12_and_14(&font, 1, 2)));
+    let (summary, issues) = check_font(&good);
+    assert!(issues.is_empty(), "{issues:#?}");
+    assert!(summary.refs_by_kind.contains_key("glyph-id/cmap12") && summary.refs_by_kind.contains_key("glyph-id/cmap14"), "{summary:?}");
+
+    // the group maps two code points to gids 2 and 3; there are 3 glyphs
+    let broken = with_table(&font, "cmap", Some(cmap_with_formats_12_and_14(&font, 2, 2)));
+    // (skrifa's charmap iterator silently drops format 12 mappings beyond numGlyphs)
+    assert_only(&broken, &["gid-range:cmap12"]);
+    let broken = with_table(&font, "cmap", Some(cmap_with_formats_12_and_14(&font, 1, 9)));
+    let got = codes(&broken);
+    assert!(got.contains("gid-range:cmap14") && got.iter().all(|c| c == "gid-range:cmap14" || c == "skrifa-charmap"), "{got:?}");
+}
+
 // ------------------------------------------------------------------ layout
 
 /// File offset of the first Feature table of a layout table.
